@@ -23,6 +23,7 @@ RULE = ('bounded: every contract of C06 evaluated natively on each labelled mole
 # views, aromatic rings, rings_count, components, no exception) stays enforced inside the gaps.
 EXCUSED = ('sssr-independent', 'sssr-minimal', 'sssr-size-multiset', 'sssr-sizes-numbering')
 BASIS_THEOREMS = ('atom-in_ring-oracle', 'bond-in_ring-oracle')
+MAX_REPORT = 25      # new violations listed per contract
 
 # the 18-atom witness found by the seeded assemblies on the unchanged tree (seed independent, run every time): cyclopentane fused on
 # an 8-ring, a 4-ring spiro/fused at atom 9 and a 3-atom bridge; contains the theta core 3/5/5, so it is inside gap A
@@ -465,7 +466,7 @@ def bounded(run):
              for d in ('exhaustive', 'random', 'corpus', 'cycle.sdf', 'fixed')}
     examples = []
     skipped = []
-    shown = Counter()
+    shown, reported, suppressed = Counter(), Counter(), Counter()
     for i, (n, keys, samples, viols, gp) in zip(order, res):
         it, d = items[i], dom[i]
         st = stats[d]
@@ -478,7 +479,12 @@ def bounded(run):
         for k in keys:
             run.case(0, key=k)
         for key, what, wit, nat in viols:
-            run.violation(key, what, witness=wit, native=nat)
+            c = key.split(':', 1)[0]
+            if (run.pid, key) not in run.known and reported[c] >= MAX_REPORT:      # keep the output readable; exit code is already 1
+                suppressed[c] += 1
+                continue
+            if run.violation(key, what, witness=wit, native=nat) == 'new':
+                reported[c] += 1
         hit = set()
         for k, v in gp.items():
             if k.startswith('skipped:'):
@@ -492,6 +498,9 @@ def bounded(run):
             else:
                 st['excused_contract_failures'][k[5:]] += v
         st['graph_variants_with_excused_failures'] += len(hit)
+    if suppressed:
+        run.notes['violations_not_listed'] = {'why': f'more than {MAX_REPORT} new violations of the same contract', 'per_contract': dict(suppressed)}
+        print(f'C06 bounded: further violations not listed (same contracts): {dict(suppressed)}', flush=True)
     if skipped:
         run.notes['skipped_corpus_inputs'] = {'count': len(skipped), 'examples': skipped[:5],
                                               'why': 'the library raised while parsing / normalising the SMILES (outside C06)'}
